@@ -73,9 +73,8 @@ def bits_of(e, x, n, guard="true"):
     """Definitional bits of x under `guard` (guard must imply 0 <= x < 2^n): returns list of fresh 0/1
     atoms with guard => x = sum b_i 2^i. Conservative: when the guard is false nothing is constrained."""
     bs = [e.fresh("sb", 0, 1) for _ in range(n)]
-    # peeling chain x_0 = x, x_i = 2 x_{i+1} + b_i, x_n = 0 (equivalent to x = sum b_i 2^i; the chain
-    # form lets the LIA solvers settle one bit at a time)
-    xs = [A(x)] + [e.fresh("sx", 0, (1 << (n - i)) - 1) for i in range(1, n)] + ["0"]
-    chain = " ".join(f"(= {xs[i]} (+ (* 2 {xs[i + 1]}) {bs[i]}))" for i in range(n))
-    e.lines.append(f"(assert (=> {guard} (and {chain})))")
+    e.lines.append(f"(assert (=> {guard} (= {A(x)} {wsum(bs)})))")
+    # uniqueness of binary representation, instantiated against the system's own decomposition of x
+    # (a valid theorem with its premises kept inside the formula; only a hint for the solver)
+    e.radix_hint(x, bs)
     return bs
